@@ -25,7 +25,8 @@ RULE = ("synthetic systems: peptides of 2..15 residues from templates (GLY ALA S
         "waters, a ligand with N-H/O-H/O, residues with deleted backbone atoms), heavy atoms placed at random grid "
         "points of a small cube so that many donor/acceptor pairs are close, hydrogens 0.1 nm from the parent aimed "
         "at a random acceptor or at random, 1..6 frames by per-frame jitter, optional orthorhombic box with atoms "
-        "shifted by lattice vectors; real systems: residue windows of tests/data structures with hydrogens, jittered and "
+        "whole / group-wise shifted / atom-wise shifted by lattice vectors / wrapped atom by atom across a cell corner, crossed "
+        "with periodic in {True, False} (so periodic=False WITH a cell and periodic=True WITHOUT one occur); real systems: residue windows of tests/data structures with hydrogens, jittered and "
         "snapped to the grid; x freq in {0,0.1,0.5,0.99} x cutoffs +-30% x exclude_water x sidechain_only x periodic; "
         "a case is non-trivial when mdtraj reports at least one bond; distinct by hash of (system, call)")
 TRUSTED = ["harness/impl/hbond_impl.py (builds the Topology/Trajectory from the JSON description, calls the public API)",
@@ -345,6 +346,9 @@ def place(rng, sysd, n_frames, periodic):
     if periodic:
         L = [int(rng.choice([1.5, 2.0, 2.5, 3.0]) * G) for _ in range(3)]
         box = L
+    wrap = rng.choice(["whole", "groups", "atomwise", "wrapped"]) if box is not None else "none"
+    off = [-rng.randint(0, int(side * G)) for _ in range(3)]
+    sysd["wrap"] = wrap
     frames = []
     for f in range(n_frames):
         jit = rng.choice([0.0, 0.01, 0.03])
@@ -360,12 +364,24 @@ def place(rng, sysd, n_frames, periodic):
             ln = rng.uniform(0.095, 0.105) * G
             xyz[h] = [xyz[par][k] + int(round(v[k] / nv * ln)) for k in range(3)]
         if box is not None:
-            # lattice translations of whole small groups (a heavy atom with its hydrogens): minimum image must undo them
-            for i in heavy:
-                if rng.random() < 0.25:
-                    sh = [rng.choice([-1, 0, 1]) * box[k] for k in range(3)]
-                    for j in [i] + [h for h, par in sysd["parent"].items() if par == i]:
-                        xyz[j] = [xyz[j][k] + sh[k] for k in range(3)]
+            # how the system sits in the cell (same for all frames of a system, drawn once below)
+            if wrap == "groups":
+                # lattice translations of whole small groups (a heavy atom with its hydrogens)
+                for i in heavy:
+                    if rng.random() < 0.25:
+                        sh = [rng.choice([-1, 0, 1]) * box[k] for k in range(3)]
+                        for j in [i] + [h for h, par in sysd["parent"].items() if par == i]:
+                            xyz[j] = [xyz[j][k] + sh[k] for k in range(3)]
+            elif wrap == "atomwise":
+                # every atom independently moved by a lattice vector: D-H bonds and D...A pairs straddle faces, the plain
+                # and the minimum-image distance of a bonded pair differ
+                for j in range(n):
+                    if rng.random() < 0.3:
+                        xyz[j] = [xyz[j][k] + rng.choice([-1, 0, 1]) * box[k] for k in range(3)]
+            elif wrap == "wrapped":
+                # the cluster is put across a corner of the cell and every atom is wrapped into [0, L)
+                for j in range(n):
+                    xyz[j] = [(xyz[j][k] + off[k]) % box[k] for k in range(3)]
         frames.append({"xyz": xyz, "box": list(box) if box is not None else None})
     return frames
 
@@ -438,10 +454,15 @@ def real_systems(ctx, n_sys):
         for f in range(F):
             jit = rng.choice([0.0, 0.005, 0.02, 0.05])
             frames.append({"xyz": [[c + int(round(rng.gauss(0, jit) * G)) for c in v] for v in d["xyz"]], "box": None})
-        if rng.random() < 0.3:
+        s["wrap"] = "none"
+        if rng.random() < 0.4:
             L = [int(rng.choice([3.0, 4.0]) * G)] * 3
+            s["wrap"] = rng.choice(["whole", "wrapped"])
+            off = [rng.randint(0, L[0]) for _ in range(3)]
             for fr in frames:
                 fr["box"] = list(L)
+                if s["wrap"] == "wrapped":     # molecule split across faces, atom by atom
+                    fr["xyz"] = [[(v[k] + off[k]) % L[k] for k in range(3)] for v in fr["xyz"]]
         s["frames"] = frames
         s["oob"] = [rng.randint(-2 * G, 2 * G) for _ in range(3)]
         s["calls"] = gen_calls(rng, ctx.tier)
@@ -680,13 +701,14 @@ def run_systems(ctx, systems, batch=4, spec=False):
                 c = s["calls"][k["call"]]
                 nb = len(r.get("triplets", [])) if tag == "BH" else sum(len(x) for x in r.get("frames", []))
                 ctx.count({"sys": digest_sys(s), "call": c}, nontrivial=nb > 0,
-                          bucket="%s/%s%s" % (fname, s.get("stream", "replay"),
-                                              "/periodic" if c.get("periodic") and s["frames"][0]["box"] else ""))
+                          bucket="%s/%s/periodic=%s/cell=%s/%s" % (fname, s.get("stream", "replay"), bool(c.get("periodic")),
+                                                                   s["frames"][0]["box"] is not None, s.get("wrap", "none")))
                 if j in bad:
                     ctx.fail("md.%s: reported bonds are not the triplets meeting the criteria" % fname,
                              case_of(s, k["call"]), observed=r,
                              expected="coq: strict <= result <= lenient (MD.Hbond.Run.check_%s)" % tag.lower(),
-                             tags={"fn": fname, "periodic": bool(c.get("periodic")), "stream": s.get("stream", "replay")})
+                             tags={"fn": fname, "periodic": bool(c.get("periodic")), "stream": s.get("stream", "replay"),
+                                   "cell": s["frames"][0]["box"] is not None, "wrap": s.get("wrap", "none")})
         jobs, good = blocks["KS"]
         for k, i, e, r in jobs:
             if i is None:
@@ -712,6 +734,7 @@ def digest_sys(s):
 
 def case_of(s, call_index):
     return {"kind": "system", "residues": s["residues"], "bonds": s["bonds"], "frames": s["frames"], "oob": s["oob"],
+            "wrap": s.get("wrap", "none"),
             "parent": {str(k): v for k, v in s.get("parent", {}).items()}, "stream": s.get("stream", "replay"),
             "calls": [s["calls"][call_index]]}
 
